@@ -416,6 +416,9 @@ SEED_KW = {
     # last slot before a storage-chunk boundary with chunk_size lowered to 4 (public attribute)
     "chunk4": (dict(chunk=4), [L(B, 99, 1), ("T",), L(S, 101, 1, 2), ("T",), ("T",)]),
     "halftick": (dict(tick=0.5), [L(B, 99.5, 1), L(S, 100.5, 1)]),
+    # decimal tick sizes (k*tick is not exactly representable): empty books on ticks 0.1 and 1e-5
+    "tick01": (dict(tick=0.1), []),
+    "tick1e5": (dict(tick=0.00001), []),
 }
 
 
